@@ -31,7 +31,9 @@ int main(void)
 {
   world_init(1, 0);
   uint32_t n = nondet_u32(), r = nondet_u32();
-  VF_ASSUME(n >= 1 && n <= 0xfffffff0u && r >= 1 && r <= 0xfffffff0u);
+  /* the inbound message carries the expected number (in-sequence message): its MsgSeqNum is read from the raw text by the real
+     process(), so the expected number is a one-digit value here */
+  VF_ASSUME(n >= 1 && n <= 0xfffffff0u && r >= 1 && r <= 9);
   vf_sess_set_seq(SESS, n, r); vf_sess_set_flags(SESS, 1, 0, 0, 0, 0); vf_sess_set_state(SESS, 1 /* st_continuous */); vf_sess_set_active(SESS, 1);
   c_valid = 1; c_snd = n; c_rcv = r;
   /* decoding failure is a compile-time variant (-DFAIL): a symbolic choice merges the thrown object with "no object" in the
@@ -43,8 +45,9 @@ int main(void)
 #endif
   in_kind = (nondet_u8() & 1) ? K_HEARTBEAT : K_APP;
   cx_n = n; cx_r = r; cx_fail = in_fail; cx_kind = in_kind;
-  static const uint8_t raw[] = "34=5\001";
-  uint8_t ok = vf_sb_process(&the_sess, (uint8_t*)raw, 5) & 1;
+  static uint8_t raw[8] = { 1, '3', '4', '=', '5', 1, 0, 0 };      /* "...<SOH>34=<r><SOH>" */
+  raw[4] = (uint8_t)('0' + r);
+  uint8_t ok = vf_sb_process(&the_sess, (uint8_t*)raw, 6) & 1;
   VF_ASSERT(!__vf_exc_pending, "C16: process does not throw"); __vf_exc_pending = 0;
   VF_ASSERT(ok, "C16: the inbound message is reported as processed");
   VF_ASSERT(vf_sess_next_recv(SESS) == r + 1, "C16: a processed inbound message moves the expected receive number by one");
